@@ -17,7 +17,11 @@
 (*   p = [cin, cout : channels * S,  kx, ky : kernel,  ox, oy : output     *)
 (*        size,  w, a : weight / activation bits,  b : 1 iff bias,         *)
 (*        g : 1 = groups is 1 | 0 = depthwise (groups = cin = cout),       *)
-(*        td : 1/w_theta_alpha (NE16 only; 1, 2 or 4)]                     *)
+(*        td : 1/w_theta_alpha (NE16 only; 1, 2 or 4; 0 encodes a fraction *)
+(*             w_theta_alpha of EXACTLY 0, e.g. one-hot sampling)]         *)
+(* A point may also carry  wf, af : fractional part of the weight /        *)
+(* activation precision in tenths (w_true = w + wf/10 with w the floor);   *)
+(* absent = 0.  Only the domain predicate CostSupported reads them.       *)
 (* with kx=ky=ox=oy=1 for Linear and ky=oy=1 for Conv1d.                   *)
 (* A registered cost function is  fn = [m, l, pat]:  m = name of the cost  *)
 (* specification, l \in {"conv1d","conv2d","linear"}, pat \in {"U","dw"}.  *)
@@ -251,6 +255,29 @@ DeclaredSupported(fn, p) ==
       [] OTHER -> TRUE
 
 (***************************************************************************)
+(* The SUPPORTED domain of a function over inputs that need not be         *)
+(* integers: the look-up-table models are defined for the listed           *)
+(* precisions EXACTLY (2.5, 4.7, 0.9, -0.5 bit are not entries of any      *)
+(* table); everything else must be rejected, not rounded or truncated.     *)
+(***************************************************************************)
+FracW(p) == IF "wf" \in DOMAIN p THEN p.wf ELSE 0
+FracA(p) == IF "af" \in DOMAIN p THEN p.af ELSE 0
+RestrictedModels == MpicModels \cup {"ne16_latency", "diana_latency"}
+CostSupported(fn, p) ==
+    /\ DeclaredSupported(fn, p)
+    /\ (fn.m \in MpicModels \cup {"diana_latency"} => FracW(p) = 0 /\ FracA(p) = 0)
+    /\ (fn.m = "ne16_latency" => FracA(p) = 0)
+\* What C16 claims about rejection.  NE16 declares no weight-precision restriction, and its short-cuts
+\* (w = 0 or theta = 0 return 0) come before its assertions, so there the declared activation restriction
+\* is not enforced: neither is claimed either way.
+CostClaimed(fn, p) ==
+    fn.m = "ne16_latency" =>
+        /\ FracW(p) = 0 /\ p.w \in {0, 2, 4, 8}
+        /\ ((p.w = 0 \/ p.td = 0) => (p.a = 8 /\ FracA(p) = 0))
+\* int(x) of Python for x = n + f/10, n = floor(x): truncation towards zero
+TruncToZero(n, f) == IF n >= 0 \/ f = 0 THEN n ELSE n + 1
+
+(***************************************************************************)
 (* Dispatcher.  For p in unit S:                                           *)
 (*    cost(fn, p) * CostUnit(fn.m, S)  =  CostCore * CostMult * num / den  *)
 (* with num/den = 1 except for MPIC.  CostCore = Reject when the function  *)
@@ -282,7 +309,7 @@ CostCore(fn, p, S) ==
       [] m = "ne16_latency"   ->
             \* inner model in unit S*td: ko = theta*cout = cout/(S*td), ki = cin = cin*td/(S*td);
             \* cost = latency / theta = latency * td  =>  cost * S = latency in unit S*td
-            IF p.w = 0 THEN 0
+            IF p.w = 0 \/ p.td = 0 THEN 0            \* "if w_precision == 0 or w_theta_alpha == 0: return 0."
             ELSE IF p.a # 8 THEN Reject
             ELSE IF fn.l = "linear" THEN Ne16Generalized(FALSE, 1, 1, 1, 1, p.cout, p.cin * p.td, p.w, S * p.td)
             ELSE IF dw THEN (IF p.kx = 3 /\ p.ky = 3
